@@ -221,10 +221,19 @@ def run(ctx: core.Ctx):
     fact = {f["name"]: f.get("value") for f in facts}
     aia = fact.get("schema cache add-if-absent", True)
 
+    # what PySpark 3.5.9 does in the situations of the two findings (recorded by oracle/record_c18.py)
+    try:
+        pyspark = json.load(open(os.path.join(core.VERIF, "oracle", "c18_pyspark.json")))
+        if pyspark["reregistered_view_select_star"]["columns"] != ["c", "d", "e"] \
+                or pyspark["listTables_before_schema"] != pyspark["listTables_after_schema"]:
+            ctx.broken("spec-conformance", "the PySpark recording contradicts the property's reading (latest registration of a view "
+                       "name wins; df.schema leaves nothing in the catalog)", data=pyspark)
+    except OSError:
+        pyspark = None
     rnd = random.Random(ctx.seed)
     quick = ctx.tier == "quick"
-    n_hist = 45 if quick else 600
-    n_solo = 25 if quick else 400
+    n_hist = 45 if quick else 400
+    n_solo = 25 if quick else 250
 
     # ---- cases -------------------------------------------------------------------------------------------
     cases = []   # dict(kind, p, h, trace)
@@ -336,6 +345,7 @@ def run(ctx: core.Ctx):
             desc = {"kind": c["kind"], "mode": c["mode"], "trace": c["trace"], "program": c["p"],
                     "P_observed_with_history": o_hist, "P_observed_alone_in_fresh_process": o_alone,
                     "model_predicts": same_pred, "model_domain": [indep, scoped],
+                    "pyspark_3.5.9_recording": pyspark and pyspark.get("reregistered_view_select_star"),
                     "property": "rows/names/errors of P's actions must be the same with and without the other work"}
             if impl_same:
                 n_same += 1
@@ -412,7 +422,8 @@ def run(ctx: core.Ctx):
                 sig = f"C18/read-only-action-leaves-object:{act}"
             ctx.deviation(sig, f"catalog listings differ before and after the read-only action `{act}`",
                           {"action": act, "trace": tr, "before": before, "after": after, "new_objects": new,
-                           "property": "read-only actions leave no objects behind that the catalog API reports"})
+                           "property": "read-only actions leave no objects behind that the catalog API reports",
+                           "pyspark_3.5.9_recording": pyspark and {k: pyspark[k] for k in ("listTables_before_schema", "listTables_after_schema")}})
             break
         # the model's prediction for the schema lookup
         if act == "schema":
